@@ -15,6 +15,7 @@ use crate::report::{Ctx, Spec, Stats};
 use crate::tt::Tt;
 use crate::util::{self, guarded, mix, Caught, Rng};
 use rsbdd::bdd::BDDEnv;
+use rsbdd::NamedSymbol;
 use serde_json::{json, Value};
 use std::cell::Cell;
 use std::rc::Rc;
@@ -489,6 +490,48 @@ fn judge_both(st: &mut Stats, text: &str) {
     }
 }
 
+/// Fixed points inside formulas whose evaluation fills the table with MORE THAN 65 536 entries
+/// (the equality of two 12-16-bit vectors under the order "all p, then all q" is exponential), with
+/// a CONSTANT fixed point next to further work: `(lfp X # X & BIG) | z` denotes z,
+/// `(gfp X # X | BIG) & z` denotes z, and so on. The value is known by construction.
+fn big_table_fixed_points(ctx: &Ctx, st: &mut Stats) {
+    for bits in ctx.tier.pick(vec![14usize, 15], vec![12, 13, 14, 15, 16]) {
+        let p: Vec<String> = (0..bits).map(|i| format!("p{}", i)).collect();
+        let q: Vec<String> = (0..bits).map(|i| format!("q{}", i)).collect();
+        let big = (0..bits).map(|i| format!("(p{} <=> q{})", i, i)).collect::<Vec<_>>().join(" & ");
+        let ordering: Vec<NamedSymbol> = p.iter().chain(q.iter()).chain(["z".to_string(), "y".to_string()].iter()).enumerate().map(|(i, n)| NamedSymbol { name: Rc::new(n.clone()), id: i }).collect();
+        // (text, the single variable the whole formula must equal)
+        let cases = [
+            (format!("(lfp X # X & ({})) | z", big), "z"),
+            (format!("(gfp X # X | ({})) & z", big), "z"),
+            (format!("z & -(lfp X # X & ({}))", big), "z"),
+            (format!("((mu X # X & ({})) | y) & ((nu X # X | ({})) & y)", big, big), "y"),
+            (format!("exists {} # ((gfp X # X | ({})) & z)", p.join(", "), big), "z"),
+        ];
+        for (text, var) in cases {
+            st.evals += 1;
+            let case = || json!({"kind": "big-table-fixed-point", "bits": bits, "var": var});
+            match engine_eval(text.as_bytes(), Some(ordering.clone()), 2_000_000_000, 1_000) {
+                EngineOut::Ok(ev) => {
+                    let ok = match ev.result.as_ref() {
+                        rsbdd::bdd::BDD::Choice(t, l, e) => l.name.as_ref() == var && matches!(t.as_ref(), rsbdd::bdd::BDD::True) && matches!(e.as_ref(), rsbdd::bdd::BDD::False),
+                        _ => false,
+                    };
+                    if ok {
+                        st.bump("fixed_points_in_a_large_table");
+                        st.nt.insert(mix(0xb16, bits as u64 * 8 + text.len() as u64 % 8));
+                    } else {
+                        st.violate("c06.fixed-point", "C06:big-table:wrong-value".into(), format!("a formula that denotes `{}` (a constant fixed point of a {}-bit equality next to it; more than 65 536 table entries) evaluates to {}", var, bits, short(&ev.result)), case());
+                    }
+                }
+                EngineOut::EvalCaught(_, Caught::Budget(_)) => st.bump("step_budget_exceeded(inconclusive case)"),
+                EngineOut::Rejected(e) => st.violate("c06.accept", "C06:rejects-well-formed".into(), format!("big-table formula rejected: {}", e), case()),
+                EngineOut::EvalCaught(_, c) | EngineOut::ParsePanic(c) => st.violate("c06.panic", format!("C06:{}", c.signature()), format!("a formula that denotes `{}` (constant fixed point of a {}-bit equality; more than 65 536 table entries): {:?}", var, bits, c), case()),
+            }
+        }
+    }
+}
+
 /// Chains of HUNDREDS of rounds (more than an 8-bit counter holds): the walk through the first
 /// K = 2^n - 3 assignments of n = 8..10 variables, one per round. The least fixed point is the
 /// set of the K assignments visited (its complement for the dual); the engine must get there and
@@ -552,6 +595,7 @@ pub fn run(ctx: &Ctx) -> (Stats, Spec) {
     }
     both_kinds(ctx, &mut st);
     very_long_chains(ctx, &mut st);
+    big_table_fixed_points(ctx, &mut st);
     // LONG chains: the iteration walks through the assignments one per round (2^n rounds over n
     // variables — far more than the number of variables or names of the formula)
     for n in ctx.tier.pick(vec![3usize, 4], vec![2, 3, 4, 5]) {
